@@ -161,12 +161,19 @@ func builtinJSONStringify(call FunctionCall) Value {
 		}
 		switch spaceValue.kind {
 		case valueString:
+			// The gap is the first 10 characters (UTF-16 code units), not bytes.
 			value := spaceValue.string()
-			if len(value) > 10 {
-				ctx.gap = value[0:10]
-			} else {
-				ctx.gap = value
+			units := 0
+			for index, chr := range value {
+				if chr > 0xFFFF {
+					units++
+				}
+				if units++; units > 10 {
+					value = value[0:index]
+					break
+				}
 			}
+			ctx.gap = value
 		case valueNumber:
 			value := spaceValue.number().int64
 			if value > 10 {
